@@ -611,7 +611,16 @@ func (x *Exec) rangeIter(v value, t types.Type) iter {
 		snap := make([]*mapEntry, n)
 		copy(snap, v.entries)
 		if n > 1 && x.mapOrder != 0 {
-			r := x.choose(n, "map-order")
+			var r int
+			if x.mapOrder == 2 {
+				r = x.choose(n, "map-order")
+			} else {
+				// one rotation offset per path, shared by all maps (mode 2 = independent per range)
+				if x.mapRot < 0 {
+					x.mapRot = x.choose(3, "map-rotation")
+				}
+				r = x.mapRot % n
+			}
 			rot := make([]*mapEntry, 0, n)
 			rot = append(rot, snap[r:]...)
 			rot = append(rot, snap[:r]...)
